@@ -36,7 +36,7 @@ contract(M + "Task.objective_function", params=dict(x="list[val]"),
 
 SOL_CASES = [{"solution": "list[val]"}, {"solution": "nd[val]"}]
 contract(M + "Task.correct_solution", params=dict(solution="list[val]"), returns="list[val]", cases=SOL_CASES,
-         requires=["len(solution) >= " + DIM, "nanfree(self, solution)", DIM + " >= 0"],
+         requires=["len(solution) >= " + DIM, "nanfree(self, solution)"],
          ensures=[("fresh", "fresh(result)"), ("one-per-coordinate", "len(result) == " + DIM),
                   ("coordinate-wise-with-the-owning-variable", "all(result[i] is Corr(flat(self, i), solution[i]) for i in range(" + DIM + "))"),
                   ("in-space", "Space(self, result)"),
@@ -46,13 +46,13 @@ contract(M + "Task.correct_solution", params=dict(solution="list[val]"), returns
 
 contract(M + "Task.initial_solution", params=dict(solution="opt[list[val]]"), returns="list[val]",
          cases=[{"solution": "None"}, {"solution": "list[val]"}, {"solution": "nd[val]"}],
-         requires=["implies(solution is not None, len(solution) >= " + DIM + " and nanfree(self, solution))", DIM + " >= 0"],
+         requires=["implies(solution is not None, len(solution) >= " + DIM + " and nanfree(self, solution))"],
          ensures=[("fresh", "fresh(result)"), ("in-space", "Space(self, result)"), ("pure", "heap_unchanged()")],
          assigns=["rng"], properties=["C01", "C05"])
 
 contract(M + "Task.solve", params=dict(x="list[val]"), returns={"case": "__obj__", "scalar": "float", "list": "list[float]", "default": "scalar"},
          cases=[{"__obj__": "scalar"}, {"__obj__": "list"}],
-         requires=["Space(self, x)", DIM + " >= 0"],
+         requires=["Space(self, x)"],
          ensures=[("objective-at-x", "implies(scalar_case(), result == F(self, x))"),
                   ("objective-count", "implies(not scalar_case(), len(result) == nobj(self))"),
                   ("pure", "heap_unchanged()")],
